@@ -15,7 +15,7 @@ claimed = {
  "C02": ("Lean theorems: compact encoder bytes = rendering of the encoder's tree (C02_marshal_eq_render), decoded Maps satisfy the `Decoded` invariant and are their own image, XML -> Map -> XML -> Map is a fixed point at tree level and - through the tokenizer law TokLaw, which is proved for an executable tokenizer model (Model/Tokenizer.lean: C02_tok_law, C02_tok_law_raw, hypothesis-free corollaries C02_tok_fixed_point_bytes / C02_tok_sym_fixed_point_bytes / C02_tok_escdec_fixed_point_bytes) that is itself compared token by token with encoding/xml on every compact encoder output and on generated and damaged documents (op xtok) - at byte level, for the default options (C02_fixed_point_tree/_bytes) and for EVERY symmetric option pair: any attribute prefix and text key, case/snake folding, simple-values-as-map, keep-spaces, float/bool cast in any combination (C02_sym_fixed_point_tree/_bytes under the stated library laws LowerLaw/FloatLaw/FloatTextLaw, with witnesses that the excluded options break it); decoder-side escaping, the indented encoder and well-formedness are covered by the round-trip correspondence and oracles (compact bytes vs model, re-decode equality, token streams of indented vs compact, option histories through the toggle forms); one known finding (keep-spaces + indent)", "7 C02"),
  "C03": ("Lean theorems: for every well-formed JSON-shaped value the encoder's tree decodes (by the documented conventions) to exactly the declared image: scalars as text, lists as repeated siblings in order, attribute and text entries, empties as empty elements (C03_tree_preserves, C03_encode_preserves, C03_anyXml_preserves), encoding succeeds on the domain; compact bytes of Map.Xml / AnyXml compared with the model byte for byte, an independent image oracle in Go on both compact and indented output; for the indented encoder: same tree, and its layout token stream decodes to the image when prefix/indent are in the trim set (C03_indent_tree_preserves), bytes of Map.XmlIndent compared with the indent model byte for byte (xenci)", "7 C03"),
  "C04": ("Lean theorems over the sequence-codec model (sorting by pairwise distinct sequence numbers inverts any permutation, decoder numbering, stream decoding = tree fold, tree-level round trip on the domain) + correspondence of decode and encode + token-stream round-trip oracle through Xml, XmlIndent and BeautifyXml; indented sequence encoder modelled byte-exactly (xseqi): fails/panics exactly when the compact one does, its bytes minus layout are the compact bytes for every input, decode -> XmlIndent -> decode reproduces the decoded value for blank prefix/indent (C04_indent_*)", "7 C04"),
- "C06": ("Lean theorems: string-literal round trip for both escaping modes and every string, safe encoding never contains < > &, value and Map level round trip through the modelled JSON grammar, acceptance characterisation of NewMapJson; C06ExtIndent: the same round trip for Map.JsonIndent - the grammar skips the layout, so NewMapJson(JsonIndent(prefix, indent, safe)) is the normal form of the Map and equals the decoding of the compact output for every JSON-shaped Map, both encodings and every prefix/indent of JSON white space (C06_indent_roundtrip_exact, C06_indent_same_as_compact, value level C06_indent_value), the safe indented output has no raw < > & (C06_indent_safe_has_no_html), witness that a non-white-space prefix breaks it (C06_indent_ws_needed_witness); encoder bytes compared with the model and with encoding/json itself (same escaping), Map.JsonIndent(prefix, indent[, safe]) byte for byte with the model of json.Indent (op jenci: varied white-space prefixes/indents, empty containers, both encodings) and its bytes decoded by NewMapJson beside the model decoder, decoder compared with the model on generated and corrupted texts and with encoding/json's first value; one known finding (JSON null)", "7 C06"),
+ "C06": ("Lean theorems: string-literal round trip for both escaping modes and every string, safe encoding never contains < > &, value and Map level round trip through the modelled JSON grammar, NewMapJson characterised as a function of the first value alone (object, null, or an array returned as exactly {\"object\": array}; what follows the value is not looked at - the general tail lemma is partial, proved for encoder output); C06ExtIndent: the same round trip for Map.JsonIndent - the grammar skips the layout, so NewMapJson(JsonIndent(prefix, indent, safe)) is the normal form of the Map and equals the decoding of the compact output for every JSON-shaped Map, both encodings and every prefix/indent of JSON white space (C06_indent_roundtrip_exact, C06_indent_same_as_compact, value level C06_indent_value), the safe indented output has no raw < > & (C06_indent_safe_has_no_html), witness that a non-white-space prefix breaks it (C06_indent_ws_needed_witness); encoder bytes compared with the model and with encoding/json itself (same escaping), Map.JsonIndent(prefix, indent[, safe]) byte for byte with the model of json.Indent (op jenci: varied white-space prefixes/indents, empty containers, both encodings) and its bytes decoded by NewMapJson beside the model decoder, decoder compared with the model on generated and corrupted texts and with encoding/json's first value; one known finding (JSON null)", "7 C06"),
  "C13": ("Lean theorems over delivery schedules: the byte adaptors are transparent for every schedule, the getJson scanner depends only on the bytes (zero-length reads, last byte with EOF), its extent on a generative grammar of objects incl. strings ending in an escaped backslash, JSON documents come out in order; XML documents read one after another at token level are the Maps of the single-document decoder in order, nothing beyond a document is consumed, the bulk handler stops after the document on which the handler returned false, truncation gives the complete prefix and an error (C13_xml_*); adaptors and scanner compared with the model read by read; whole streams (XML, sequence XML, JSON; reader, Raw, bulk handler and Raw bulk handler forms) under random legal byte schedules and through a chunked io.Reader without ReadByte compared with direct decoding; one known finding (JSON raw white space)", "7 C13"),
  "C15": ("Lean theorems: the decoders' models are total and fail exactly when the token stream ends before the root closes, decoder output never reaches a panic site of the encoder models, and the REGENERATED list of potentially panicking source sites is contained in the reviewed table (C15_sites_covered, re-checked on every run); 17 decoder entry points on truncated/corrupted bytes and every string-argument API on hostile strings and odd Maps run in child processes (panic, stack overflow and hang detection)", "7 C15"),
  "C16": ("Lean theorems: equal Maps (any entry order at any depth) give byte-identical output (C16_perm_invariant, C16_mapXml_perm_invariant), sortByKey sorts and is order-independent on distinct keys; shuffled rebuilds with different capacities, repeated calls, attribute/sibling order read back, and every Writer / Raw / Maps string / file form compared with the byte-returning forms; the same for the indented Map encoder with no hypothesis and for the indented sequence encoder under distinct sequence numbers (C16_indent_*)", "7 C16"),
